@@ -28,7 +28,7 @@ static bool spec(std::string const& t, std::string& out, KV& keys)
 int main()
 {
   Obl o1{"named_template.matches_grammar", "C19", "", "template with every field's name removed == fmt-grammar scanner; keys = (name, :spec) in order (no field directly followed by an escaped }})"};
-  Obl o2{"named_template.field_then_escaped_brace", "C19", "named-field-then-escaped-brace", "same, for templates where a field is directly followed by an escaped }}"};
+  Obl o2{"named_template.field_then_escaped_brace", "C19", "", "same, for templates where a field is directly followed by an escaped }}"};
   long valid = 0; std::string sample;
   long n = for_all_strings("{}:ax0 ", LEN, [&](std::string const& t) {
     std::string so; KV sk; if (!spec(t, so, sk)) return;     // precondition: a valid fmt template
